@@ -103,12 +103,16 @@ ReplicatePar(packA, failA, packB, failB, first, z) ==
     /\ handlers' = handlers \cup {"chA", "chB"}
     /\ UNCHANGED cfg
 
-Next ==
-    /\ Len(hist) < MaxOps
-    /\ \/ \E r \in BOOLEAN, m \in MapModes : Configure(r, m)
-       \/ \E ch \in Channels, pack \in Packs(Kinds, MaxLen), f \in BOOLEAN, z \in Salts : Replicate(ch, pack, f, z)
-       \/ \E pa \in Packs(ParKinds, ParMaxLen), pb \in Packs(ParKinds, ParMaxLen), fa \in BOOLEAN, fb \in BOOLEAN,
-             first \in {1, 2}, z \in Salts : ReplicatePar(pa, fa, pb, fb, first, z)
+Bounded == Len(hist) < MaxOps
+
+DoConfigure == Bounded /\ \E r \in BOOLEAN, m \in MapModes : Configure(r, m)
+DoReplicate == Bounded /\ \E ch \in Channels, pack \in Packs(Kinds, MaxLen), f \in BOOLEAN, z \in Salts :
+                              Replicate(ch, pack, f, z)
+DoReplicatePar == Bounded /\ \E pa \in Packs(ParKinds, ParMaxLen), pb \in Packs(ParKinds, ParMaxLen),
+                                fa \in BOOLEAN, fb \in BOOLEAN, first \in {1, 2}, z \in Salts :
+                                 ReplicatePar(pa, fa, pb, fb, first, z)
+
+Next == DoConfigure \/ DoReplicate \/ DoReplicatePar
 
 Spec == Init /\ [][Next]_vars
 
